@@ -24,7 +24,7 @@ PUSHED = object()      # returned by contracts that pushed frames themselves
 
 
 class Frame:
-    __slots__ = ('item', 'body', 'locals', 'bb', 'ip', 'ret', 'visits')
+    __slots__ = ('item', 'body', 'locals', 'bb', 'ip', 'ret', 'visits', 'subst')
     native = False
 
     def __init__(self, item, body):
@@ -33,6 +33,7 @@ class Frame:
         self.bb, self.ip = 0, 0
         self.ret = None
         self.visits = {}
+        self.subst = None
 
     def clone_with(self, cl):
         nf = Frame.__new__(Frame)
@@ -40,6 +41,7 @@ class Frame:
         nf.locals = {i: cl.cell(c) for i, c in self.locals.items()}
         nf.ret = cl.val(self.ret)
         nf.visits = dict(self.visits)
+        nf.subst = self.subst
         return nf
 
     def local(self, i):
@@ -139,6 +141,50 @@ def _unescape(s):
         else:
             out.extend(c.encode('utf-8')); i += 1
     return bytes(out)
+
+
+def split_generic_args(name):
+    """-> (type args of the self type, method args) of a call-site name, lifetimes removed"""
+    def args_of(txt):
+        return [q for q in split_top(txt) if not q.startswith("'")]
+    name = name.strip()
+    margs = []
+    if name.endswith('>') and '::<' in name:
+        depth, i = 0, len(name) - 1
+        while i >= 0:
+            ch = name[i]
+            if ch == '>' and name[i - 1] not in '-=': depth += 1
+            elif ch == '<':
+                depth -= 1
+                if depth == 0: break
+            i -= 1
+        if i >= 2 and name[i - 2:i] == '::':
+            margs = args_of(name[i + 1:-1]); name = name[:i - 2]
+    targs = []
+    m = re.match(r'^<(.*)>::[A-Za-z_0-9]+$', name)
+    if m:
+        inner = m.group(1)
+        depth, pos = 0, None
+        for i in range(len(inner)):
+            ch = inner[i]
+            if ch in '<([': depth += 1
+            elif ch in ')]' or (ch == '>' and inner[i - 1] not in '-='): depth -= 1
+            elif depth == 0 and inner.startswith(' as ', i): pos = i; break
+        x = inner if pos is None else inner[:pos]
+        mm = re.match(r'^[^<]*<(.*)>\s*$', x.strip())
+        if mm: targs = args_of(mm.group(1))
+    else:
+        mm = re.match(r'^(.*)::<(.*)>::[A-Za-z_0-9]+$', name)
+        if mm: targs = args_of(mm.group(2))
+    return targs, margs
+
+
+def apply_subst(name, subst):
+    if not subst: return name
+    def rep(mo):
+        w = mo.group(0)
+        return subst.get(w, w)
+    return re.sub(r"(?<![A-Za-z0-9_:'])[A-Z][A-Za-z0-9]?(?![A-Za-z0-9_])", rep, name)
 
 
 class Machine:
@@ -361,8 +407,11 @@ class Machine:
     def operand(self, st, fr, s):
         if s.startswith('copy '): return copy_val(self.read(st, fr, s[5:]))
         if s.startswith('move '): return self.read(st, fr, s[5:])
-        if s.startswith('const '): return self.operand_const(s[6:])
-        return FnItem(s)
+        if s.startswith('const '):
+            v = self.operand_const(s[6:])
+            if isinstance(v, FnItem) and fr.subst: v = FnItem(apply_subst(v.name, fr.subst))
+            return v
+        return FnItem(apply_subst(s, fr.subst))
 
     # ------------------------------------------------------------------------------------ rvalues
     def rvalue(self, st, fr, s, dest):
@@ -428,7 +477,9 @@ class Machine:
                 full = sm[0]
                 if len(full) != len(ops):
                     ops = [o if o.startswith(('move ', 'copy ', 'const ')) else 'copy ' + o for o in full]
-            return ClosureV(m.group(1), [self.operand(st, fr, o) for o in ops])
+            cv = ClosureV(m.group(1), [self.operand(st, fr, o) for o in ops])
+            cv.subst = fr.subst
+            return cv
         return self.adt_aggregate(st, fr, s)
 
     def adt_aggregate(self, st, fr, s):
@@ -583,6 +634,7 @@ class Machine:
 
     def do_call(self, st, fr, s):
         _, dest, fname, args, retbb = s
+        if fr.subst: fname = apply_subst(fname, fr.subst)
         argv = [self.operand(st, fr, a) for a in args]
         cell, path = self.resolve(st, fr, dest)
         ret = ('place', cell, tuple(path), retbb)
@@ -608,12 +660,28 @@ class Machine:
         it = self.lookup(fname, argv)
         if it is None:
             raise Inconclusive('no contract or crate item for call ' + fname)
-        self.push_frame(st, it, argv, ret)
+        self.push_frame(st, it, argv, ret, fname)
 
-    def push_frame(self, st, it, argv, ret):
+    def subst_for(self, it, fname):
+        if not fname: return None
+        targs, margs = split_generic_args(fname)
+        sub = {}
+        if it.impl_key is not None:
+            iparams, pat = self.idx.impl_generics.get(it.impl_key, ([], []))
+            for p_, a_ in zip(pat, targs):
+                if p_ in iparams and a_ != p_: sub[p_] = a_
+        meth = it.name.split('::')[-1]
+        mps = self.idx.fn_generics.get(meth)
+        if mps:
+            for p_, a_ in zip(mps, margs):
+                if a_ != p_ and not a_.startswith('{closure') and not a_.startswith('impl ') and not a_.startswith('fn('): sub[p_] = a_
+        return sub or None
+
+    def push_frame(self, st, it, argv, ret, fname=None):
         body = parse_body(it)
         self.items_used.setdefault(it.name, it)
         nf = Frame(it, body)
+        nf.subst = self.subst_for(it, fname)
         for i, a in enumerate(argv): nf.local(i + 1).v = a
         nf.ret = ret
         st.frames.append(nf)
@@ -644,6 +712,7 @@ class Machine:
                 nf.local(1).v = target
             for i, a in enumerate(args): nf.local(i + 2).v = a
             nf.ret = ret
+            nf.subst = getattr(target, 'subst', None)
             st.frames.append(nf)
             return
         if isinstance(target, FnItem):
@@ -702,6 +771,8 @@ class Machine:
             # dynamic dispatch on the receiver
             if argv:
                 rt = self.runtime_type(argv[0])
+                # dyn dispatch through Arc / Box layers: the receiver becomes the innermost reference
+                while isinstance(argv[0], Ref) and isinstance(deref(argv[0]), Ref): argv[0] = deref(argv[0])
                 if rt:
                     cands = self.idx.impls.get((rt, tb, meth))
                     if cands: return self._pick(cands, fname)
